@@ -2,7 +2,7 @@
    implication of Props.v, with non-trivial values.  Everything here is evaluation (vm_compute): tests. *)
 From Coq Require Import List Arith Bool NArith ZArith.
 From Verif.lib Require Import FinSet.
-From Verif.C04 Require Import Model.
+From Verif.C04 Require Import Model Proofs ProofsMesh.
 From Verif.C03 Require Import Model Proofs Proofs2.
 Import ListNotations.
 
@@ -138,3 +138,16 @@ Example ex_fancy :
   sm_cols Z (sm_rows Z P4 [4; 1; 1]%N) [2; 0; 2; 1]%N
   = [[(0%N, 2%Z); (2%N, 2%Z)]; [(1%N, 2%Z); (3%N, 2%Z)]; [(1%N, 2%Z); (3%N, 2%Z)]].
 Proof. vm_compute. reflexivity. Qed.
+
+(* hassemble_entry_reachable_partial: st1 is a reachable space in the sense of the theorem *)
+Example ex_reachable :
+  Forall axis_ok [mk_axis 2 [3; 1; 3]] /\ (forall d, @None nat = Some d -> 1 <= d) /\
+  ops_valid (hs_init [mk_axis 2 [3; 1; 3]] None) [Refine [(0, (CSet, [[0]]))] false].
+Proof.
+  split; [|split].
+  - constructor; [|constructor]. split; [repeat constructor | vm_compute; auto].
+  - intros d H; discriminate.
+  - cbn [ops_valid op_valid]. split; auto.
+    intros k c H. destruct k as [|k]; simpl in H; [|destruct H].
+    destruct H as [<-|[]]. vm_compute. auto.
+Qed.
